@@ -88,6 +88,27 @@ theorem eof_iff (s : LState) :
     (nextToken s).1.kind = tEOF ↔ ((skipWhitespace s).eof = true ∨ (skipWhitespace s).ch = 0) :=
   nextToken_eof_iff s
 
+theorem count_eof_aux {α : Type} (p : α → Bool) (l : List α)
+    (h1 : l.getLast?.map p = some true) (h2 : ∀ t ∈ l.dropLast, p t = false) : l.countP p = 1 := by
+  rcases List.eq_nil_or_concat l with rfl | ⟨l', a, rfl⟩
+  · simp at h1
+  · simp only [List.concat_eq_append, List.getLast?_append, List.getLast?_singleton, Option.some_or, Option.map_some, Option.some.injEq] at h1
+    simp only [List.concat_eq_append, List.dropLast_concat] at h2
+    have h3 : l'.countP p = 0 := by
+      rw [List.countP_eq_zero]; intro t ht; simp [h2 t ht]
+    simp [List.countP_append, h3, h1]
+
+/-- "exactly one EOF": the token list of any input contains the EOF kind exactly once (and `tokenize_eof_last` says where). -/
+theorem tokenize_exactly_one_eof (b : Bytes) : (lex b).countP (fun t => t.kind == tEOF) = 1 := by
+  obtain ⟨h1, h2⟩ := tokenize_eof_last b
+  apply count_eof_aux
+  · cases h : (lex b).getLast? with
+    | none => rw [h] at h1; simp at h1
+    | some t => rw [h] at h1; simp at h1; simp [h1]
+  · intro t ht; simpa using h2 t ht
+
+example : (lex []).countP (fun t => t.kind == tEOF) = 1 := tokenize_exactly_one_eof []
+
 /-! ## non-vacuity and the named instances -/
 
 /-- unterminated string, block comment, parameter, heredoc, and the three `\x` edge cases: each lexes
